@@ -210,54 +210,29 @@ func checkC11(c *an.Ctx) {
 		c.Und("C11.1", "output:Write methods", token.NoPos, "no Write method found in pkg/output")
 	}
 
-	// C11.2 via the phase table
-	for _, row := range []struct {
-		name, failAt string
-		want        bool
-	}{{"all succeed", "", true}, {"command fails", "execute", false}, {"before fails", "before", false}} {
-		outs := exploreRun(c, r, row.failAt, true, nil)
-		bad := ""
-		for _, o := range outs {
-			has := false
-			execIdx, storeIdx := -1, -1
-			for i, e := range o.Effects {
-				if e == "store" {
-					has = true
-					storeIdx = i
-				}
-				if e == "execute" {
-					execIdx = i
-				}
-			}
-			if has != row.want {
-				if row.want {
-					bad = "the output of a successful task is not stored"
-				} else {
-					bad = "output is stored although the task did not run all its commands"
-				}
-			}
-			if has && storeIdx < execIdx {
-				bad = "output is stored before the commands ran"
-			}
-		}
-		if len(outs) == 0 {
-			bad = "no path"
-		}
-		key := an.Short(r.run) + ":store row " + row.name
-		if bad != "" {
-			c.Bad("C11.2", key, r.callOf[r.store].Pos(), "%s: %s", row.name, bad)
-		} else {
-			c.OK("C11.2", key, r.callOf[r.store].Pos(), "%d paths", len(outs))
-		}
-	}
+	// C11.2 via the Run trace
+	checkRunTable(c, "C11.2", map[string]bool{"store": true})
 	// the store is handed Run's task
 	sameTask := false
-	for _, a := range r.callOf[r.store].Call.Args {
-		if an.SameValue(a, r.task) {
-			sameTask = true
+	an.EachInstr(r.store, func(in ssa.Instruction) {
+		call, ok := in.(*ssa.Call)
+		if !ok {
+			return
 		}
-	}
-	c.Check(sameTask, "C11.2", an.Short(r.run)+":store(task)", r.callOf[r.store].Pos(), "the store is given the task that just ran", "the store is not given Run's task")
+		if cc, ok := an.IsCallTo(call, fnSet); ok && an.FieldProv(cc.Value) == "TaskRunner.env" {
+			for _, src := range c.P.DeepSources(cc.Args[1], 2, true) {
+				if sc, ok := src.(*ssa.Call); ok && an.ShortCallee(&sc.Call) == "(*bytes.Buffer).String" {
+					ap := an.AccessPath(sc.Call.Args[0])
+					for _, b := range c.P.DeepSourcesStop(ap.Base, 3, true, func(v ssa.Value) bool { return v == ssa.Value(r.task) }) {
+						if b == ssa.Value(r.task) {
+							sameTask = true
+						}
+					}
+				}
+			}
+		}
+	})
+	c.Check(sameTask, "C11.2", an.Short(r.store)+":store(task)", r.store.Pos(), "what is stored is the output of the task that just ran", "the stored output is not read from Run's task")
 
 	// C11.3
 	cfg := chainCfg(p)
